@@ -12,7 +12,9 @@ import (
 	"math/big"
 	"net/http"
 	"net/http/httptest"
+	"os"
 	"path"
+	"path/filepath"
 	"strconv"
 	"strings"
 	"sync"
@@ -50,6 +52,51 @@ type AuthRoute struct {
 	MaxBody  int         `json:"max_body,omitempty"`
 	// Targets > 0: a push route with that many deliver targets instead of a pull route
 	Targets int `json:"targets,omitempty"`
+	// Via: how secret values reach the config ("" raw: | env | file; files end in a newline, as files do);
+	// TZMin: validity timestamps are written with this UTC offset in minutes (same instants)
+	Via   string `json:"via,omitempty"`
+	TZMin int    `json:"tz_min,omitempty"`
+}
+
+var (
+	c08RefSeq  int
+	c08Cleanup []func()
+)
+
+// c08Release removes the variables and files the last generated config referred to.
+func c08Release() {
+	for _, f := range c08Cleanup {
+		f()
+	}
+	c08Cleanup = nil
+}
+
+// c08SecretRef renders a reference to a secret value and provides the value behind it.
+func c08SecretRef(via, val string) string {
+	switch via {
+	case "env":
+		c08RefSeq++
+		name := fmt.Sprintf("VERIF_C08_%d_%d", os.Getpid(), c08RefSeq)
+		_ = os.Setenv(name, val)
+		c08Cleanup = append(c08Cleanup, func() { _ = os.Unsetenv(name) })
+		return "env:" + name
+	case "file":
+		c08RefSeq++
+		path := filepath.Join(fScratch(), fmt.Sprintf("c08sec-%d-%d", os.Getpid(), c08RefSeq))
+		_ = os.MkdirAll(filepath.Dir(path), 0o755)
+		_ = os.WriteFile(path, []byte(val+"\n"), 0o600)
+		c08Cleanup = append(c08Cleanup, func() { _ = os.Remove(path) })
+		return "file:" + path
+	}
+	return "raw:" + val
+}
+
+func rfc3339TZ(offS, tzMin int) string {
+	t := fT0.Add(time.Duration(offS) * time.Second)
+	if tzMin == 0 {
+		return t.Format(time.RFC3339)
+	}
+	return t.In(time.FixedZone("", tzMin*60)).Format(time.RFC3339)
 }
 
 type AuthReq struct {
@@ -131,9 +178,9 @@ func authText(routes []AuthRoute) string {
 	var sec strings.Builder
 	for i, r := range routes {
 		for _, v := range r.Refs {
-			fmt.Fprintf(&sec, "  secret %s {\n    value %s\n    valid_from %s\n", q(fmt.Sprintf("R%d_%s", i, v.ID)), q("raw:"+v.Value), q(rfc3339(v.FromS)))
+			fmt.Fprintf(&sec, "  secret %s {\n    value %s\n    valid_from %s\n", q(fmt.Sprintf("R%d_%s", i, v.ID)), q(c08SecretRef(r.Via, v.Value)), q(rfc3339TZ(v.FromS, r.TZMin)))
 			if v.UntilS != 0 {
-				fmt.Fprintf(&sec, "    valid_until %s\n", q(rfc3339(v.UntilS)))
+				fmt.Fprintf(&sec, "    valid_until %s\n", q(rfc3339TZ(v.UntilS, r.TZMin)))
 			}
 			sec.WriteString("  }\n")
 		}
@@ -154,13 +201,13 @@ func authText(routes []AuthRoute) string {
 		if strings.Contains(r.Kind, "hmac") {
 			opts := r.SigH != "" || r.TsH != "" || r.NonceH != "" || r.TolS != 0 || r.Block || len(r.Secrets)+len(r.Refs) > 1
 			if !opts && len(r.Secrets) == 1 {
-				fmt.Fprintf(&b, "  auth hmac %s\n", q("raw:"+r.Secrets[0]))
+				fmt.Fprintf(&b, "  auth hmac %s\n", q(c08SecretRef(r.Via, r.Secrets[0])))
 			} else if !opts && len(r.Refs) == 1 {
 				fmt.Fprintf(&b, "  auth hmac secret_ref %s\n", q(fmt.Sprintf("R%d_%s", i, r.Refs[0].ID)))
 			} else {
 				b.WriteString("  auth hmac {\n")
 				for _, s := range r.Secrets {
-					fmt.Fprintf(&b, "    secret %s\n", q("raw:"+s))
+					fmt.Fprintf(&b, "    secret %s\n", q(c08SecretRef(r.Via, s)))
 				}
 				for _, v := range r.Refs {
 					fmt.Fprintf(&b, "    secret_ref %s\n", q(fmt.Sprintf("R%d_%s", i, v.ID)))
@@ -565,6 +612,16 @@ func genAuthRoute(t *rapid.T, i int, kinds []string) AuthRoute {
 		}
 		r.TolS = rapid.SampledFrom([]int{0, 1, 30, 60}).Draw(t, "tol")
 		r.Block = rapid.Bool().Draw(t, "block")
+		r.Via = rapid.SampledFrom([]string{"", "", "env", "file"}).Draw(t, "via")
+		r.TZMin = rapid.SampledFrom([]int{0, 0, 120, -420, 330}).Draw(t, "tz_min")
+		if rapid.IntRange(0, 9).Draw(t, "blank_secret") == 0 {
+			// the only secret of the route is whitespace (an empty secret file, a blank variable): the route
+			// may refuse to load, but it must not end up open
+			r.Secrets, r.Refs = []string{rapid.SampledFrom([]string{" ", "\t"}).Draw(t, "blank_val")}, nil
+			if r.Via == "" {
+				r.Via = rapid.SampledFrom([]string{"env", "file"}).Draw(t, "blank_via")
+			}
+		}
 	}
 	if r.Kind == "forward" {
 		r.Forward = rapid.SampledFrom(c08Fwd).Draw(t, "fwd")
@@ -622,6 +679,7 @@ func genC08Case(kinds []string) *rapid.Generator[C08Case] {
 // in-tolerance, fresh-nonce request (C17 inbound half: rotation never rejects a valid secret).
 func runAuth(c C08Case, prop string, iff bool) *fOutcome {
 	out := newFOutcome()
+	defer c08Release()
 	w, err := newFrontWorld(authText(c.Routes), worldOpts{})
 	if err != nil {
 		out.Skipped = "config rejected: " + err.Error()
